@@ -782,7 +782,16 @@ impl Server {
                         
                         // Handle SYNC/PSYNC commands that need connection access
                         if command == "SYNC" || command == "PSYNC" {
-                            sync_response = Some(self.handle_sync_command(&command, parts, id)?);
+                            // This special case runs before process_frame, i.e. before the authentication
+                            // gate: apply the gate here, or an unauthenticated client obtains the dataset
+                            let authenticated = self.connections.with_connection(id, |conn| {
+                                conn.state == ConnectionState::Authenticated
+                            }).unwrap_or(false);
+                            if self.config.password.is_some() && !authenticated {
+                                sync_response = Some(RespFrame::error("NOAUTH Authentication required"));
+                            } else {
+                                sync_response = Some(self.handle_sync_command(&command, parts, id)?);
+                            }
                         }
                     }
                 }
